@@ -21,7 +21,7 @@ Theorem c17_wait_blocks_on_unfinished : forall w j t rest,
 Proof. exact wait_blocks_on_unfinished. Qed.
 Print Assumptions c17_wait_blocks_on_unfinished.
 
-(** brush today (id = table length + 1): launch, launch, the first finishes, poll, launch gives
+(** Regression example about the old numbering, fixed by 649020c (id = table length + 1): launch, launch, the first finishes, poll, launch gives
     two live, running jobs with the same number. *)
 Theorem c17_ids_distinct_refuted :
   exists ops, let m := table (run_ops false world0 ops) in
@@ -39,7 +39,7 @@ Theorem c17_ids_distinct_if_suffix_removal :
 Proof. exact ids_distinct_if_suffix_removal. Qed.
 Print Assumptions c17_ids_distinct_if_suffix_removal.
 
-(** The repaired assignment (largest live number + 1): distinct numbers after every history. *)
+(** The current code (largest live number + 1): distinct numbers after every history, unconditionally. *)
 Theorem c17_ids_distinct_fixed : forall ops, NoDup (ids (table (run_ops true world0 ops))).
 Proof. exact ids_distinct_fixed. Qed.
 Print Assumptions c17_ids_distinct_fixed.
@@ -50,7 +50,8 @@ Theorem c17_current_unique : forall fixed ops,
 Proof. exact current_unique. Qed.
 Print Assumptions c17_current_unique.
 
-(** brush today: three launches leave two jobs marked previous; repaired: at most one. *)
+(** Regression example about the old code (fixed by 01e8198): three launches left two jobs marked
+    previous; the current code ([add_fixed]): at most one, after every history. *)
 Theorem c17_previous_unique_refuted :
   exists ops, (count is_prev (table (run_ops false world0 ops)) = 2)%nat.
 Proof. exact previous_unique_refuted. Qed.
